@@ -322,8 +322,24 @@ def gen_k_plan(run_seed: int, hashseed: int = 0, catalogue=None, p_backend_c: fl
     }
 
 
+def _terms(e):
+    """Additive terms of an expression tree, each a list of its leaves."""
+    if e[0] in ("t", "lit"):
+        return [[e]]
+    l, r = _terms(e[1]), _terms(e[2])
+    if e[0] == "*":
+        return [a + b for a in l for b in r]
+    return l + r
+
+
 def _huge_classes(prob):
-    """Index classes all of whose occurrences (inputs and target) are at compressed levels."""
+    """Index classes that may be given a huge dimension without the *result* becoming huge: all
+    occurrences (inputs and target) are at compressed levels, and every additive term of the
+    expression contains a tensor indexed by the class (a term without it is broadcast along it, a
+    literal term makes the result dense - both legitimately produce dimension-many entries)."""
+    if prob.get("expr") is None:
+        return []
+    terms = _terms(expr_from_json(prob["expr"]))
     tname = prob.get("target_name", "A")
     occ = {}
     tensors = dict(prob["inputs"])
@@ -338,7 +354,25 @@ def _huge_classes(prob):
         for l, m in enumerate(modes):
             x = ix[ordering[l]]
             occ.setdefault(prob["classes"].get(x, x), []).append(m)
-    return sorted(c for c, ms in occ.items() if ms and all(m == "s" for m in ms))
+    ok = []
+    for c, ms in sorted(occ.items()):
+        if not ms or not all(m == "s" for m in ms):
+            continue
+        if all(any(leaf[0] == "t" and any(prob["classes"].get(x, x) == c for x in leaf[2]) for leaf in term)
+               for term in terms):
+            ok.append(c)
+    return ok
+
+
+def hypersparse_ok(plan):
+    """Does a (possibly shrunk) K plan still respect the precondition of its huge dimensions?"""
+    big = {plan["classes"].get(x, x) for x, v in plan["sizes"].items() if v > 5000}
+    if not big:
+        return True
+    prob = {"expr": plan.get("expr"), "target": plan["target"], "inputs": plan["input_indexes"],
+            "formats": plan["problem"]["formats"], "classes": plan["classes"],
+            "target_name": plan["problem"]["assignment"].split("(")[0].strip()}
+    return big <= set(_huge_classes(prob))
 
 
 # ------------------------------------------------- catalogue problems from text
